@@ -5,6 +5,8 @@ reducers never invent a key.
 -/
 import OpenFGAVerif.Proofs.ListUsersSem
 
+set_option linter.unusedSectionVars false
+
 namespace OpenFGAVerif.ListUsers
 
 section
